@@ -16,7 +16,8 @@ from . import core
 DEFAULT_SEED = 20261003
 KNOWN_FILE = os.path.join(core.VERIF, "known_findings.json")
 REPLAY_DIR = os.path.join(core.VERIF, "replays")
-EVIDENCE_DIR = os.path.join(core.VERIF, "evidence")
+# evidence describes /repo itself; runs against a scratch copy (sensitivity suite) must not overwrite it
+EVIDENCE_DIR = os.path.join(core.VERIF, "evidence") if core.REPO == "/repo" else os.path.join(core.BUILD_DIR, "evidence-scratch")
 
 
 def derive_seed(seed, prop, idx):
@@ -144,6 +145,11 @@ def write_evidence(pid, mod, tier, seed, wall, agg, n_cases, n_done, viol_total,
         "operations_executed": agg["ops"],
         "runs_per_hour": int(runs / wall * 3600) if wall > 0 else 0,
         "cases_per_hour": int(n_done / wall * 3600) if wall > 0 else 0,
+        "seeds_per_hour": int(n_done / wall * 3600) if wall > 0 else 0,
+        "seeds": "one derived seed per case: sha256(VERIF_SEED | property | case index)",
+        "distinct_states_measure": "distinct_fault_sites = distinct (operation kind, path class, phase, action) at which a fault/kill/"
+                                   "signal fired; post_state_classes = per-file outcomes (original / updated / unchanged-noop / other) "
+                                   "summed over runs; distinct_nontrivial = distinct (case, plan) pairs whose fault fired",
         "simulated_time": "not applicable (no clock-dependent behaviour); operations_executed is the measure of simulated work",
         "faults_fired": agg["fired"],
         "distinct_fault_sites": len(agg["sites"]),
